@@ -410,9 +410,15 @@ func (k Keeper) GetAccount(ctx sdk.Context, addr sdk.AccAddress) authtypes.Accou
 func RegisterGlobalPermissionAcc(ctx sdk.Context, k Keeper) {
 	state := k.NewState(ctx)
 
+	// Anybody can send coins to the all-zero address, so it may hold a balance by the time an exported
+	// genesis is imported: registering the permissions must not reset it.
+	var balance uint64
+	if acc, err := state.GetAccount(acm.GlobalPermissionsAddress); err == nil && acc != nil {
+		balance = acc.Balance
+	}
 	gpacc := &acm.Account{
 		Address:     acm.GlobalPermissionsAddress,
-		Balance:     0,
+		Balance:     balance,
 		Permissions: permission.DefaultAccountPermissions,
 	}
 	gpacc.Permissions.Base.SetBit = permission.AllPermFlags
